@@ -650,6 +650,9 @@ example : Codec.decIsKey ⟨false, 5, -1⟩ 4602678819172646912 = true := by dec
 -- the hypotheses of C04_decimal_functional are met by a real pair (text 0.1, its key)
 example : ∀ k', Codec.decIsKey ⟨false, 1, -1⟩ k' = true → (4591870180066957722 : Int) = k' :=
   fun k' h' => C04_decimal_functional _ _ k' (by decide) h'
+example : Codec.valueIs (.num "1152921504606846976") (.i64 1152921504606846976) = true := by decide
+example : ∀ w, Codec.Val.tag (.i64 7) = Codec.Val.tag w → Codec.valueIs (.num "7") w = true → Val.i64 7 = w :=
+  fun w ht h' => C04_schema_value_exact (.num "7") _ w ht (by decide) h'
 -- -0.1
 example : Codec.decIsKey ⟨true, 1, -1⟩ (-4591870180066957722) = true := by decide
 
